@@ -18,6 +18,8 @@ TERMS = {
     'A8': [('password', 1.0)], 'C8': [('LLLLLLLL', 0.75), ('ULLLLLLL', 0.25)],
     'A10': [('abcdefghij', 1.0)], 'C10': [('L' * 10, 1.0)],
     'A12': [('abcdefghijkl', 1.0)], 'C12': [('L' * 12, 1.0)],
+    # a three-digit length (the shipped Default ruleset has A101 and A228)
+    'A101': [('abcdefghij' * 10 + 'k', 1.0)], 'C101': [('L' * 101, 1.0)],
     'D1': [('1', 0.5), ('2', 0.5)], 'D2': [('12', 1.0)], 'D3': [('123', 0.75), ('007', 0.25)],
     'O1': [('!', 0.5), (' ', 0.5)], 'O2': [('!!', 1.0)],
     'K4': [('qwer', 0.5), ('1qaz', 0.5)], 'K5': [('qwert', 1.0)],
@@ -74,6 +76,8 @@ def make_ruleset(rng, path, with_x):
         structs.add(s)
     structs = sorted(structs)
     rng.shuffle(structs)
+    if rng.random() < 0.6:
+        structs.append(rng.choice(['A101', 'A101D2', 'D1A101']))
     if rng.random() < 0.7:
         structs.insert(rng.randint(0, len(structs)), 'M')
     ps = sorted((rng.choice([0.3, 0.2, 0.1, 0.05, 0.25, 0.125]) for _ in structs), reverse=True)
@@ -83,18 +87,25 @@ def make_ruleset(rng, path, with_x):
 
 
 def guess_lengths(path):
-    """per structure label: (min, max) length of the guesses the real guesser makes (non-Markov)"""
+    """(min, max) length of the guesses the real guesser makes for every loaded base structure, IN FILE ORDER (the loader keeps
+    the order of grammar.txt; the label the loader derived is not trusted - a structure is identified by its line);
+    None for the Markov structure"""
     pcfg = ptq.load_pcfg(path)
-    res = {}
+    out = []
+    by_base = {}
     for b, pt in expand.all_pts(pcfg):
-        label = ''.join(t for t in b['replacements'] if t[0] != 'C')
-        if label == 'M':
+        by_base.setdefault(id(b), []).append(pt)
+    for b in pcfg.base:
+        if 'M' in b['replacements']:
+            out.append(None)
             continue
-        lines, n = expand.expand_real(pcfg, pt)
-        for ln in lines:
-            lo, hi = res.get(label, (10 ** 9, 0))
-            res[label] = (min(lo, len(ln)), max(hi, len(ln)))
-    return res
+        lo, hi = 10 ** 9, 0
+        for pt in by_base.get(id(b), []):
+            lines, n = expand.expand_real(pcfg, pt)
+            for ln in lines:
+                lo, hi = min(lo, len(ln)), max(hi, len(ln))
+        out.append((lo, hi) if hi else (0, 0))
+    return out
 
 
 def main(pid, tier, seed):
@@ -112,14 +123,17 @@ def main(pid, tier, seed):
         base = make_ruleset(rng, src, with_x)
         n_edits = 6 if tier == 'quick' else 14
         for e in range(n_edits):
-            mn = rng.choice([0, 0, 1, 2, 3, 4, 5, 6, 8, 10])
-            mx = rng.choice([0, 0, 3, 4, 5, 6, 8, 9, 10, 12, 14])
+            mn = rng.choice([0, 0, 1, 2, 3, 4, 5, 6, 8, 10, 100, 101])
+            mx = rng.choice([0, 0, 3, 4, 5, 6, 8, 9, 10, 12, 14, 102, 103])
             if mx and mn > mx:
                 mn, mx = mx, mn
             ts = rng.choice([None, None, 'A,D', 'A,D,O', 'A,D,O,K,Y,X', 'a,d,y', 'M,A', 'D'])
             rx = rng.choice([None, None, None] + [[r] for r in REGEXES] + [['^A', 'D']])
             copy = rng.random() < 0.5
             jobs.append(dict(k=k, e=e, name=name, mn=mn, mx=mx, ts=ts, rx=rx, copy=copy, with_x=with_x, base=base))
+        if any('A101' in s_ for s_, _ in base):
+            # a bound only the three-digit structure satisfies
+            jobs.append(dict(k=k, e=n_edits, name=name, mn=100, mx=rng.choice([0, 103, 110]), ts=None, rx=None, copy=False, with_x=with_x, base=base))
 
     def runjob(j):
         # every edit works on its own private copy of the generated ruleset
@@ -164,7 +178,7 @@ def main(pid, tier, seed):
             r['glen'] = guess_lengths(r['target'])
         except Exception as ex:
             r['glen_error'] = repr(ex)
-            r['glen'] = {}
+            r['glen'] = []
 
     traces, meta = [], {}
     xvals = [len(v) for v, _ in TERMS['X1']]
@@ -193,8 +207,9 @@ def main(pid, tier, seed):
         rxs = j['rx'] or []
         rxok = [all(re.search(rx, b['label']) for rx in rxs) for b in before]
         glen = []
-        for a in after:
-            lo, hi = r['glen'].get(a['label'], (0, 0))
+        for i_, a in enumerate(after):
+            g_ = r['glen'][i_] if i_ < len(r['glen']) else None
+            lo, hi = g_ if g_ else (0, 0)
             glen.append([lo, hi])
         m['kept'] = [a['label'] for a in after]
         m['removed'] = [b['label'] for i, b in enumerate(before) if (i + 1) not in keep]
